@@ -147,6 +147,8 @@ M = {
    [("msgwriter.go", "\t\tif err := multiPartWriter.SetBoundary(boundary); err != nil && mw.err == nil {\n\t\t\tmw.err = err\n\t\t}", "\t\tmw.err = multiPartWriter.SetBoundary(boundary)")]),
  "C12-writestring-short-write-accepted": ("C12", ["C12"], "writeString accepts a write cut short without an error again (the fix removed)",
    [("msgwriter.go", "\tif mw.err == nil && n < len(s) {", "\tif mw.err == nil && n < len(s) && false {")]),
+ "C12-signing-prerender-error-ignored": ("C12", ["C12"], "the error of the rendering that is signed is ignored again (the fix removed)",
+   [("msg.go", "\tif mw.err != nil {\n\t\t// What would be signed is not the complete message", "\tif mw.err != nil && false {\n\t\t// What would be signed is not the complete message")]),
  "C17-deadline-times-thousand": ("C17", ["C17"], "deadline armed with timeout*1000",
    [("smtp/smtp.go", "c.conn.SetDeadline(time.Now().Add(timeout))", "c.conn.SetDeadline(time.Now().Add(timeout * 1000))")]),
  "C17-dial-deadline-cleared-after-greeting": ("C17", ["C17"], "the dial-phase deadline is cleared once the greeting was read",
